@@ -2,7 +2,11 @@
 
 package iterator
 
-import "context"
+import (
+	"context"
+
+	"github.com/synnaxlabs/x/errors"
+)
 
 // VerifC07IteratorSync: acknowledgements are forwarded once per sequence number, after every leaseholder
 // answered, and report success only when every leaseholder succeeded; data responses pass through.
@@ -12,14 +16,19 @@ func VerifC07IteratorSync() {
 	ctx := context.Background()
 	for round := 1; round <= 2; round++ {
 		all := true
+		anyErr := false
 		for i := 0; i < n; i++ {
-			if verifBool("data-interleaved") {
+			if round == 1 && verifBool("data-interleaved") {
 				d, ok, _ := s.sync(ctx, Response{Variant: ResponseVariantData, SeqNum: round})
 				verifAssert("data-passes-through", ok && d.Variant == ResponseVariantData)
 			}
 			r := Response{Variant: ResponseVariantAck, SeqNum: round, Ack: verifBool("ack"), Command: CommandNext}
 			if !r.Ack {
 				all = false
+			}
+			if round == 1 && verifBool("failed") {
+				r.Error = errors.New("remote iterator failed")
+				anyErr = true
 			}
 			out, ok, err := s.sync(ctx, r)
 			verifAssert("sync-no-error", err == nil)
@@ -30,6 +39,7 @@ func VerifC07IteratorSync() {
 			verifAssert("sync-forwarded-when-complete", ok)
 			verifObserveBool("out.ack", out.Ack)
 			verifAssert("sync-ack-is-conjunction", out.Ack == all && out.SeqNum == round)
+			verifAssert("sync-error-reported-iff-any-failed", (out.Error != nil) == anyErr)
 		}
 	}
 	verifReach("end")
